@@ -1601,9 +1601,15 @@ async fn emit_event(
     buffer: &Arc<Mutex<Vec<Event>>>,
     event_log: &EventLog,
 ) {
+    #[cfg(rip_verif)]
+    rip_kernel::verif::point("sess.before_emit");
     let _ = sender.send(event.clone());
+    #[cfg(rip_verif)]
+    rip_kernel::verif::point("sess.sent");
     let mut guard = buffer.lock().await;
     guard.push(event.clone());
+    #[cfg(rip_verif)]
+    rip_kernel::verif::point("sess.recorded");
     let _ = event_log.append(&event);
 }
 
